@@ -605,6 +605,53 @@ def judge_undefined(spec, rec):
     return {'raised': type(e).__name__, 'msg': str(e)[:120]}
 
 
+
+# ----------------------------------------------------------------------------------------------------
+# termination of calls whose cost explodes when numbers are not floats (exact integer power towers cannot be interrupted
+# from Python: each case runs in a forked child that the kernel kills after 20 s)
+
+from vlib.isolate import run_in_fork, ChildFailed  # noqa: E402
+
+TOWERS = [('Sum', ['9', '12', 'n^n^n', 'n']), ('Sum', ['1', '200', 'n^n', 'n']), ('Sum', ['1', '12', 'n^n^n', 'n']),
+          ('Sum', ['1', '30', '2^n^n', 'n']), ('Sum', ['3', '5', 'n^n^n^n', 'n']), ('Sum', ['9', '9', '(n+1)^(n+2)^(n+3)', 'n']),
+          ('Sum', ['1', '40', 'n^(n^2)^n', 'n']), ('F', '9^9^9^9'), ('F', '(zqx+8)^(zqx+8)^(zqx+8)'), ('N', '9^9^9'),
+          ('N', '10^10^10'), ('M', '[9,9]^9^9^9'), ('F', 'zqx^1000^1000'), ('N', '7^7^7^7^7'), ('F', '2^2^2^2^2^2^2')]
+
+
+def items_towers(tier):
+    for key, inp in TOWERS:
+        yield {'grader': key, 'input': inp}
+
+
+def judge_tower(spec, rec):
+    g = ANCHOR_GRADERS[spec['grader']]
+    inp = spec['input']
+
+    def child():
+        grader = gspec.build(g, debug=False)
+        set_seed(0)
+        try:
+            r = grader(None, inp)
+            return ('ret', r.get('ok'))
+        except Exception as e:  # noqa: BLE001
+            return ('exc', type(e).__name__, str(e)[:200], isinstance(e, MITxError))
+    t0 = time.perf_counter()
+    try:
+        out = run_in_fork(child, timeout=20)
+    except ChildFailed as e:
+        raise Violation('watchdog', '%s on %r did not finish within 20 s (child: %s)' % (g['$g'], inp, str(e)[:120]))
+    rec.calls()
+    rec.maximum('slowest_tower_s', round(time.perf_counter() - t0, 3))
+    rec.cls('tower/judged')
+    rec.nontrivial()
+    if out[0] == 'exc' and not out[3]:
+        raise Violation('foreign-exception/%s/tower' % out[1], '%s escaped with debug off: %s' % (out[1], out[2]))
+    if out[0] == 'exc' and out[1] == 'StudentFacingError' and 'Could not check input' in out[2]:
+        raise Violation('anchor/class-not-kept/CalcOverflowError', '%s on %r: a numerical overflow is an anticipated problem '
+                        'but surfaced as the generic error %r' % (g['$g'], inp, out[2]))
+    return {'outcome': list(out[:2])}
+
+
 # ----------------------------------------------------------------------------------------------------
 # non-text / wrongly nested input objects
 
@@ -761,6 +808,7 @@ def judge_infer(spec, rec):
 PARTS = [
     Part('anchors', 'enum', judge_anchor, items=items_anchors, exhaustive=True, shards=2),
     Part('nontext-infer', 'enum', judge_infer, items=items_infer, exhaustive=True, shards=2),
+    Part('towers', 'enum', judge_tower, items=items_towers, exhaustive=True, shards=4),
     Part('hostile', 'hyp', judge_hostile, strategy=lambda tier: strat_hostile(tier),
          budget={'quick': 13000, 'thorough': 300000}),
     Part('families', 'hyp', judge_family, strategy=lambda tier: strat_families(tier),
